@@ -358,7 +358,7 @@ package mast
 //@ ensures path [C01 C10] (=> (= err anil) (and (>= (sl.len (findOptions.path H options)) (+ (sl.len (findOptions.path H0 options)) 1)) (= (pathAt H (findOptions.path H options) (- (sl.len (findOptions.path H options)) 1)) (mk_S_pathEntry result0 result1))))
 //@ ensures pathok [C01 C10] (=> (= err anil) (PathOK H (findOptions.path H options)))
 //@ ensures height [C01 C16] (and (<= (findOptions.currentHeight H options) (findOptions.currentHeight H0 options)) (>= (findOptions.currentHeight H options) (findOptions.targetLayer H options)))
-//@ ensures loads [C16] (and (>= (G.loads H) (G.loads H0)) (<= (- (G.loads H) (G.loads H0)) (+ (- (findOptions.currentHeight H0 options) (findOptions.currentHeight H options)) (ite (isErr err) 1 0))))
+//@ ensures loads [C16] (and (>= (G.loads H) (G.loads H0)) (<= (- (G.loads H) (G.loads H0)) (- (findOptions.currentHeight H0 options) (findOptions.targetLayer H0 options))) (=> (= err anil) (<= (- (G.loads H) (G.loads H0)) (- (findOptions.currentHeight H0 options) (findOptions.currentHeight H options)))) (= (findOptions.targetLayer H options) (findOptions.targetLayer H0 options)))
 //@ ensures closure [T3] (AllOK H)
 //@ ensures healthy [C01] (=> healthy (= err anil))
 //@ ensures patharr (or (= (sl.arr (findOptions.path H options)) (sl.arr (findOptions.path H0 options))) (> (sl.arr (findOptions.path H options)) W0))
@@ -541,14 +541,14 @@ package mast
 //@ ensures fail (=> (isErr err) (and (isNil leftLink) (isNil rightLink)))
 //@ ensures dp [C02 C11 C13] (=> (DirtyPrivate H0) (DirtyPrivate H))
 //@ ensures closure [T3] (=> (= err anil) (AllOK H))
-//@ ensures healthy [C01] (=> healthy (= err anil))
+//@ ensures healthy [T3] (=> healthy (= err anil))
 //@ ensures loads [C16] (>= (G.loads H) (G.loads H0))
 //@ loop 1 invariant idx (and (<= 0 splitIndex) (<= splitIndex (nkeys H node)))
 
 //@ func (*mastNode).canGrow
 //@ tags C01 C04 C12
 //@ modifies W Arr.Any@fresh
-//@ requires nn (and (> node 0) (not (= keyLayer 0)))
+//@ requires nn [T3] (and (> node 0) (not (= keyLayer 0)))
 //@ ensures healthy [C01] (=> healthy (= err anil))
 //@ ensures fail (=> (isErr err) (not result0))
 //@ loop 1 invariant idx (<= (- 1) rangeindex)
@@ -571,14 +571,15 @@ package mast
 //@ requires ok (MastCfg H m)
 //@ requires closure [T3] (AllOK H)
 //@ requires dirtyprivate [C02 C11 C13] (DirtyPrivate H)
-//@ ensures healthy [C01] (=> healthy (= err anil))
+//@ ensures healthy [T3] (=> healthy (= err anil))
 //@ ensures size [C01] (=> (= err anil) (or (= (Mast.size H m) (Mast.size H0 m)) (= (Mast.size H m) (+ (Mast.size H0 m) 1))))
 //@ ensures dp [C02 C11 C13] (=> (= err anil) (DirtyPrivate H))
-//@ ensures dirty [C13] (=> (and (= err anil) (not (= H H0))) (or (isNil (Mast.root H m)) (not (isPtr (Mast.root H m))) (mastNode.dirty H (a.val (Mast.root H m)))))
+//@ ensures dirty [C13] (=> (and (= err anil) (not (= (Mast.root H m) (Mast.root H0 m)))) (or (isNil (Mast.root H m)) (and (isPtr (Mast.root H m)) (mastNode.dirty H (a.val (Mast.root H m))))))
 //@ ensures atomicmast [C12] (=> (isErr err) (MastSame H0 H m))
 //@ ensures atomicnodes [C12] (=> (isErr err) (NodesSame H0 H W0))
 //@ loop 1 invariant grow (and (> (sl.len (findOptions.path H options&)) 0) (MastCfg H m))
 //@ loop 1 invariant pathok [T3] (PathOK H (findOptions.path H options&))
+//@ loop 1 invariant rootdirty [C13] (or (isNil (Mast.root H m)) (and (isPtr (Mast.root H m)) (mastNode.dirty H (a.val (Mast.root H m)))))
 //@ loop 1 invariant dp [C02 C11 C13] (DirtyPrivate H)
 
 //@ func (*mastNode).extract
@@ -595,7 +596,7 @@ package mast
 //@ modifies W G.loads Mast.root Mast.height Mast.growAfterSize Mast.shrinkBelowSize Arr.Any Node.*@fresh mastNode.*@fresh Box.Bytes@fresh
 //@ requires ok (MastCfg H m)
 //@ requires root [T3] (not (isNil (Mast.root H m)))
-//@ ensures healthy [C01] (=> healthy (= err anil))
+//@ ensures healthy [T3] (=> healthy (= err anil))
 //@ ensures dp [C02 C11 C13] (=> (DirtyPrivate H0) (DirtyPrivate H))
 //@ ensures cfg [C01] (=> (= err anil) (MastCfg H m))
 //@ ensures thresholds [C04] (=> (= err anil) (and (= (Mast.height H m) (mod (+ (Mast.height H0 m) 1) 256)) (= (Mast.shrinkBelowSize H m) (Mast.growAfterSize H0 m)) (= (Mast.growAfterSize H m) (* (Mast.growAfterSize H0 m) (Mast.branchFactor H0 m)))))
@@ -614,7 +615,7 @@ package mast
 //@ ensures res [C01 C09] (=> (= err anil) (or (= result0 leftLink) (= result0 rightLink) (and (isPtr result0) (> (a.val result0) W0) (Shape H (a.val result0)))))
 //@ ensures fail (=> (isErr err) (isNil result0))
 //@ ensures dp [C02 C11 C13] (=> (DirtyPrivate H0) (DirtyPrivate H))
-//@ ensures healthy [C01] (=> (and healthy (LinkOK leftLink) (LinkOK rightLink)) (= err anil))
+//@ ensures healthy [T3] (=> (and healthy (LinkOK leftLink) (LinkOK rightLink)) (= err anil))
 
 //@ func deleteEntry
 //@ tags C01 C02 C09 C11 C12
@@ -661,7 +662,7 @@ package mast
 //@ ensures dp [C02 C11 C13] (=> (= err anil) (DirtyPrivate H))
 //@ ensures atomicmast [C12] (=> (isErr err) (MastSame H0 H m))
 //@ ensures atomicnodes [C12] (=> (isErr err) (NodesSame H0 H W0))
-//@ ensures absent [C01] (=> (isNil (Mast.root H0 m)) (and (isErr err) (= H H0)))
+//@ ensures absent [C01] (=> (isNil (Mast.root H0 m)) (and (isErr err) (MastSame H0 H m) (NodesSame H0 H W0)))
 //@ loop 1 invariant cfg (MastCfg H m)
 //@ loop 1 invariant dp [C02 C11 C13] (DirtyPrivate H)
 
@@ -675,6 +676,7 @@ package mast
 //@ requires shape [T3] (and (Shape H node) (AllOK H))
 //@ ensures ok [C02] (=> (= err anil) (and (> result0 0) (Shape H result0) (=> (mastNode.shared H0 node) (= result0 node)) (=> (not (mastNode.shared H0 node)) (and (> result0 W0) (FreshArrays H result0 W0)))))
 //@ ensures fail (=> (isErr err) (= result0 0))
+//@ ensures noerr [T3] (= err anil)
 //@ ensures dp [C02 C11 C13] (=> (DirtyPrivate H0) (DirtyPrivate H))
 //@ ensures frame [C02 C11] (NodesSame H0 H W0)
 //@ loop 1 invariant idx (and (<= (- 1) rangeindex) (> node' W0) (FreshArrays H node' W0) (Shape H node'))
@@ -760,6 +762,7 @@ package mast
 //@ abstract sort.Search@(*Cursor).search1 (n f) -> (r)
 //@ modifies W Box.Any Box.Int Arr.Any@fresh
 //@ ensures range (and (<= 0 r) (<= r n))
+//@ ensures frameAny (forall ((b Int)) (! (=> (and (<= b W0) (not (= b err&))) (= (Box.Any H b) (Box.Any H0 b))) :pattern ((Box.Any H b))))
 //@ ensures frameInt (forall ((b Int)) (! (=> (and (<= b W0) (not (= b cmp&))) (= (Box.Int H b) (Box.Int H0 b))) :pattern ((Box.Int H b))))
 
 //@ func (*Cursor).search1
